@@ -91,9 +91,14 @@ func (a c12Adapter) Canon(p c12kit.Pool) string {
 	return b.String()
 }
 
+// Quick: 3 transactions (a, C, b), one peer, unordered blocks of <= 2. Thorough: first the same alphabet one
+// level deeper, then the wide alphabet (4 transactions, 2 peers, ordered blocks with all code mixes).
 var (
-	c12Quick    = c12kit.Bounds{NTx: 3, Peers: []int{1}, MaxFlight: 2, Depth: 4, BlockMax: 2, Submit: true}
-	c12Thorough = c12kit.Bounds{NTx: 4, Peers: []int{1, 2}, MaxFlight: 2, Depth: 5, BlockMax: 2, OrderedBlk: true, Submit: true}
+	c12Narrow   = c12kit.Bounds{NTx: 3, Peers: []int{1}, MaxFlight: 2, Depth: 4, BlockMax: 2, Submit: true}
+	c12Deep     = c12kit.Bounds{NTx: 3, Peers: []int{1}, MaxFlight: 2, Depth: 5, BlockMax: 2, Submit: true}
+	c12Wide     = c12kit.Bounds{NTx: 4, Peers: []int{1, 2}, MaxFlight: 2, Depth: 4, BlockMax: 2, OrderedBlk: true, Submit: true}
+	c12Quick    = []c12kit.Phase{{B: c12Narrow, Share: 1}}
+	c12Thorough = []c12kit.Phase{{B: c12Deep, Share: 0.6}, {B: c12Wide, Share: 0.4}}
 )
 
 func TestVerifC12V1Seq(t *testing.T) {
